@@ -98,6 +98,8 @@ let () =
              Printf.printf "CALLS %d %s\n" i (String.concat " " (List.map (fun (e, c) ->
                (match entry_key e with Some k -> hex_of_bytes k | None -> "none") ^ ":" ^ string_of_int (int_of_z c))
                (commit_calls kind segs ce_empty)))
+           | EDelete (_, e) ->
+             Printf.printf "CALLS %d %s:-1\n" i (match entry_key e with Some k -> hex_of_bytes k | None -> "none")
            | _ -> ()) h;
          Printf.printf "CHK %d\n" (if !ok then 1 else 0);
          print_endline "END"
